@@ -519,13 +519,15 @@ pub struct C17Case {
     pub merge_never: bool,
     pub sync_interval: bool,
     pub cycles: usize,
+    /// every file-system call the DROP itself issues (on the dropping thread) fails with EIO
+    pub drop_fault: bool,
 }
 impl C17Case {
     fn to_json(&self) -> Value {
-        json!({"engine": "vtime", "kind": "c17", "at": self.at, "inner": self.inner, "tick": self.tick, "trigger_met": self.trigger_met, "merge_never": self.merge_never, "sync_interval": self.sync_interval, "cycles": self.cycles})
+        json!({"engine": "vtime", "kind": "c17", "at": self.at, "inner": self.inner, "tick": self.tick, "trigger_met": self.trigger_met, "merge_never": self.merge_never, "sync_interval": self.sync_interval, "cycles": self.cycles, "drop_fault": self.drop_fault})
     }
     fn from_json(v: &Value) -> Option<C17Case> {
-        Some(C17Case { at: v["at"].as_str()?.to_string(), inner: v["inner"].as_u64()? as usize, tick: v["tick"].as_u64()? as usize, trigger_met: v["trigger_met"].as_bool()?, merge_never: v["merge_never"].as_bool()?, sync_interval: v["sync_interval"].as_bool()?, cycles: v["cycles"].as_u64()? as usize })
+        Some(C17Case { at: v["at"].as_str()?.to_string(), inner: v["inner"].as_u64()? as usize, tick: v["tick"].as_u64()? as usize, trigger_met: v["trigger_met"].as_bool()?, merge_never: v["merge_never"].as_bool()?, sync_interval: v["sync_interval"].as_bool()?, cycles: v["cycles"].as_u64()? as usize, drop_fault: v["drop_fault"].as_bool().unwrap_or(false) })
     }
 }
 
@@ -629,8 +631,13 @@ pub fn c17_case(dir: &Path, c: &C17Case) -> Result<String, V> {
         // everything below is relative to the moment the drop RETURNED
         let dropped = std::sync::Arc::new(AtomicBool::new(false));
         let d2 = dropped.clone();
+        let drop_fault = c.drop_fault;
         let dropper = std::thread::spawn(move || {
+            if drop_fault {
+                iohook::fail_all_on_this_thread(Some(libc::EIO));
+            }
             drop(kv);
+            iohook::fail_all_on_this_thread(None);
             d2.store(true, Ordering::SeqCst);
         });
         let t0 = Instant::now();
@@ -724,7 +731,7 @@ pub fn c17_case(dir: &Path, c: &C17Case) -> Result<String, V> {
             }
             Err(e) => return Err(("directory-cannot-be-reopened-at-once".into(), format!("further re-open: {}", e))),
         }
-        Ok(format!("{}{} drop_waited={} worker_exit<{}ms", c.at, if c.at == "inner" { format!("#{}", c.inner) } else { String::new() }, drop_waited, took.as_millis() + 1))
+        Ok(format!("{}{}{} drop_waited={} worker_exit<{}ms", if c.drop_fault { "failing-drop:" } else { "" }, c.at, if c.at == "inner" { format!("#{}", c.inner) } else { String::new() }, drop_waited, took.as_millis() + 1))
     })();
     ctl_disable();
     iohook::vtime_hold(false);
@@ -783,8 +790,11 @@ fn c17_cases(tier: Tier) -> Vec<C17Case> {
     for (trigger_met, merge_never) in [(true, false), (false, false), (false, true)] {
         for sync_interval in [false, true] {
             for tick in 1..=3usize {
-                let base = C17Case { at: String::new(), inner: 0, tick, trigger_met, merge_never, sync_interval, cycles: 0 };
+                let base = C17Case { at: String::new(), inner: 0, tick, trigger_met, merge_never, sync_interval, cycles: 0, drop_fault: false };
                 v.push(C17Case { at: "sleeping".into(), cycles: if tick == 1 { cycles } else { 0 }, ..base.clone() });
+                // the same drop with every file-system call of the drop itself failing (an error
+                // inside drop must not leave the store half closed)
+                v.push(C17Case { at: "sleeping".into(), drop_fault: true, ..base.clone() });
                 if !merge_never {
                     v.push(C17Case { at: "bg:merge:tick".into(), ..base.clone() });
                     if trigger_met {
